@@ -401,8 +401,25 @@ Definition mint_redeemers (ms : list mint) (minted : option (list (bytes * list 
                  end) ms ;;
   Ok (concat rs).
 
+(** the ledger's order of reward accounts: network, then script credentials before key
+    credentials, then the hash (header byte 0xE_ = key, 0xF_ = script; low nibble = network) *)
+Definition acct_key (a : bytes) : N * bool * bytes :=
+  match a with
+  | h :: hash => (N.land h 15, N.eqb (N.land h 16) 0, hash)
+  | [] => (0%N, false, [])
+  end.
+Definition acct_ltb (a b : bytes) : bool :=
+  let '(na, ka, ha) := acct_key a in
+  let '(nb, kb, hb) := acct_key b in
+  if (na <? nb)%N then true else if (nb <? na)%N then false
+  else if negb ka && kb then true else if ka && negb kb then false
+  else bytes_ltb ha hb.
+Fixpoint insert_acct (x : bytes) (l : list bytes) : list bytes :=
+  match l with [] => [x] | y :: r => if acct_ltb x y then x :: l else y :: insert_acct x r end.
+Definition sort_accts (l : list bytes) : list bytes := fold_right insert_acct [] l.
+
 Definition withdrawal_redeemers (t : tx) (ws : option (list (bytes * Z))) : outcome (list ared) :=
-  let keys := map fst (from_option id [] ws) in
+  let keys := sort_accts (map fst (from_option id [] ws)) in
   rs <- omapM (fun a =>
                  match data_get "redeemer" (ad_data a) with
                  | None => Err "MissingExpression"
